@@ -1,10 +1,12 @@
 #!/usr/bin/env python3
-"""copies a sub-agent's behaviour-preserving changes (/tmp/neutral/<area>/OUT/change<k>/) to /verif/neutral/<area>-<k>/"""
+"""copies a sub-agent's behaviour-preserving changes (<base>/<area>/OUT/change<k>/) to /verif/neutral/<area>-<k>/
+usage: tools_import_neutral.py <base dir, e.g. /tmp/neutral2> area..."""
 import json, os, shutil, sys
 HERE = os.path.dirname(os.path.abspath(__file__))
-for area in sys.argv[1:]:
+BASE = sys.argv[1]
+for area in sys.argv[2:]:
     for k in (1, 2, 3):
-        src = f"/tmp/neutral/{area}/OUT/change{k}"
+        src = f"{BASE}/{area}/OUT/change{k}"
         if not os.path.isdir(src):
             continue
         dst = os.path.join(HERE, "neutral", f"{area}-{k}")
